@@ -18,7 +18,7 @@ from ..values import (Const, Sym, CRef, FRef, MRef, ERef, Bound, BoundB, Obj,
                       Tup, App, New, Raise, Coll, walk)
 from ..interp import Interp, Hooks
 from ..effects import Effects, _SummaryHooks, _is_gen, _is_static
-from ..report import Finding, RuleResult, floor, Attempts
+from ..report import Finding, RuleResult, floor, Attempts, adopt
 from . import c07
 
 PROP = 'C06'
@@ -390,4 +390,29 @@ def run(prog, tier, seed):
     assumptions = ['seed table of the graph/Kripke API (METHOD_TYPES, '
                    'FIELD_TYPES) transcribed from the documented API',
                    'iteration-order / hash-seed clauses are not decided']
-    return T.results(r), expl, assumptions, T.extra()
+    # what the invariance under renaming / reordering / hash seed relies on:
+    # fresh helper names cannot collide with the user's atoms (an atom named
+    # like the helper label would change the answer), the atom builder's
+    # sort key leaves no ties between dependent formulas to set iteration
+    # order, no exception handler cuts a loop over states short (the result
+    # would depend on the iteration order), and the SCC bookkeeping does not
+    # depend on the order in which nodes are met
+    from . import c01, c02, c12, c19
+
+    def _ltl0(prog):
+        return c02.rule_ltl0(prog, c02.discover(prog))
+
+    def _ctl13(prog):
+        entry, labeller, memo_ok, why = c01.discover_labeller(prog)
+        try:
+            r1, table = c01.rule_ctl1(prog, labeller)
+        except Inconclusive as e:
+            if getattr(e, 'partial', None) is None:
+                raise
+            r1, table = e.partial
+        return c01.rule_ctl3(prog, labeller, table, tier)
+    dep = adopt(T.results(T(c19.rule_res5, prog), T(_ltl0, prog),
+                          T(_ctl13, prog), T(c12.rule_scc, prog),
+                          T(c12.rule_scc6, prog)),
+                PROP, 'order / naming sensitive spot')
+    return T.results(r) + dep, expl, assumptions, T.extra()
